@@ -1,9 +1,9 @@
 //@ ret r
 //@ contract
     ensures
-        rest(r) == dfs(*router.root, version),     // @starts_with_the_whole_listing_ahead
+        rest(r) == dfs(*router.root, Seq::<PathSegment>::empty(), version),     // @starts_with_the_whole_listing_ahead
         iter_wf(r),
         r.version == version,
 //@ body_start
-    broadcast use lemma_single_stack;
-    proof { dfs_unfold(*router.root, version); }
+    broadcast use lemma_single_stack, route_of_single;
+    proof { dfs_unfold(*router.root, Seq::<PathSegment>::empty(), version); }
